@@ -74,7 +74,7 @@ Variable steady : tt.            (* self-loop states handed to eval_node *)
 Definition attractors (U : tt) (e : nat) : res tt :=
   let* ef := eval_ef_saturated G U (eval_hctl_var G U e) in
   let* ag := eval_ag G U ef in
-  Ok (eval_bind G U ag e).
+  Ok (eval_bind G U (tand ag U) e).
 
 Definition foreign_restriction (fd : dommap) (ren : list (str * str)) : bool :=
   existsb (fun vd => negb (amem str_eqb (fst vd) ren)
